@@ -173,6 +173,11 @@ pub struct EncryptedKeyStorageManager {
     argon2_config: Argon2Config,
     /// In-memory cache of decrypted keys
     key_cache: Arc<RwLock<HashMap<String, SecureMemory>>>,
+    /// Keyed hash of the password the cached keys were decrypted under; a cached
+    /// key is served only to a caller presenting that password
+    cache_password_tag: Arc<RwLock<Option<SecureMemory>>>,
+    /// Random per-manager key of the cache password tag
+    cache_tag_key: [u8; 32],
     // Removed insecure password cache that bypassed password validation
     /// Background key derivation tasks
     _background_tasks: Arc<AsyncRwLock<HashMap<String, tokio::task::JoinHandle<Result<()>>>>>,
@@ -329,10 +334,15 @@ impl EncryptedKeyStorageManager {
             std::fs::create_dir_all(parent).map_err(P2PError::Io)?;
         }
 
+        let mut cache_tag_key = [0u8; 32];
+        RngCore::fill_bytes(&mut thread_rng(), &mut cache_tag_key);
+
         Ok(Self {
             storage_path,
             argon2_config,
             key_cache: Arc::new(RwLock::new(HashMap::new())),
+            cache_password_tag: Arc::new(RwLock::new(None)),
+            cache_tag_key,
             _background_tasks: Arc::new(AsyncRwLock::new(HashMap::new())),
             stats: Arc::new(Mutex::new(StorageStats::default())),
             _security_level: security_level,
@@ -425,17 +435,7 @@ impl EncryptedKeyStorageManager {
             .await?;
 
         // Update cache
-        {
-            let mut cache = self.key_cache.write().map_err(|_| {
-                P2PError::Storage(StorageError::LockPoisoned(
-                    "write lock failed".to_string().into(),
-                ))
-            })?;
-            cache.insert(
-                seed_id.to_string(),
-                SecureMemory::from_slice(master_seed.seed_material())?,
-            );
-        }
+        self.cache_insert(seed_id, master_seed.seed_material(), password)?;
 
         // Update statistics
         {
@@ -468,13 +468,17 @@ impl EncryptedKeyStorageManager {
                 ))
             })?;
             if let Some(cached_seed) = cache.get(seed_id) {
-                let mut stats = self.stats.lock().map_err(|_| {
-                    P2PError::Storage(StorageError::LockPoisoned(
-                        "mutex lock failed".to_string().into(),
-                    ))
-                })?;
-                stats.cache_hits += 1;
-                return MasterSeed::from_entropy(cached_seed.as_slice());
+                // Serve the cached seed only to the password it was decrypted
+                // under; any other password is checked against the file below
+                if self.cache_tag_matches(password)? {
+                    let mut stats = self.stats.lock().map_err(|_| {
+                        P2PError::Storage(StorageError::LockPoisoned(
+                            "mutex lock failed".to_string().into(),
+                        ))
+                    })?;
+                    stats.cache_hits += 1;
+                    return MasterSeed::from_entropy(cached_seed.as_slice());
+                }
             }
         }
 
@@ -490,14 +494,7 @@ impl EncryptedKeyStorageManager {
         let master_seed = MasterSeed::from_entropy(seed_bytes)?;
 
         // Update cache
-        {
-            let mut cache = self.key_cache.write().map_err(|_| {
-                P2PError::Storage(StorageError::LockPoisoned(
-                    "write lock failed".to_string().into(),
-                ))
-            })?;
-            cache.insert(seed_id.to_string(), SecureMemory::from_slice(seed_bytes)?);
-        }
+        self.cache_insert(seed_id, seed_bytes, password)?;
 
         // Update statistics
         {
@@ -548,9 +545,7 @@ impl EncryptedKeyStorageManager {
             .await?;
 
         // Clear in-memory key cache so subsequent reads require correct password
-        if let Ok(mut cache) = self.key_cache.write() {
-            cache.clear();
-        }
+        self.clear_cache()?;
 
         // Update statistics
         {
@@ -685,6 +680,58 @@ impl EncryptedKeyStorageManager {
         })?;
         cache.clear();
 
+        let mut tag = self.cache_password_tag.write().map_err(|_| {
+            P2PError::Storage(StorageError::LockPoisoned(
+                "write lock failed".to_string().into(),
+            ))
+        })?;
+        *tag = None;
+
+        Ok(())
+    }
+
+    /// Keyed hash of a password under this manager's random tag key
+    fn password_tag(&self, password: &SecureString) -> Result<SecureMemory> {
+        let password_str = password.as_str().map_err(|e| {
+            P2PError::Security(crate::error::SecurityError::DecryptionFailed(
+                format!("Invalid password encoding: {e}").into(),
+            ))
+        })?;
+        let tag = blake3::keyed_hash(&self.cache_tag_key, password_str.as_bytes());
+        SecureMemory::from_slice(tag.as_bytes())
+    }
+
+    /// Whether `password` is the one the cached keys were decrypted under
+    /// (constant-time comparison of the keyed hashes)
+    fn cache_tag_matches(&self, password: &SecureString) -> Result<bool> {
+        let presented = self.password_tag(password)?;
+        let tag = self.cache_password_tag.read().map_err(|_| {
+            P2PError::Storage(StorageError::LockPoisoned(
+                "read lock failed".to_string().into(),
+            ))
+        })?;
+        Ok(matches!(tag.as_ref(), Some(t) if t.constant_time_eq(&presented)))
+    }
+
+    /// Cache a seed that `password` has just opened (or sealed) in the storage
+    /// file; keys cached under any other password are dropped first
+    fn cache_insert(&self, seed_id: &str, seed: &[u8], password: &SecureString) -> Result<()> {
+        let presented = self.password_tag(password)?;
+        let mut cache = self.key_cache.write().map_err(|_| {
+            P2PError::Storage(StorageError::LockPoisoned(
+                "write lock failed".to_string().into(),
+            ))
+        })?;
+        let mut tag = self.cache_password_tag.write().map_err(|_| {
+            P2PError::Storage(StorageError::LockPoisoned(
+                "write lock failed".to_string().into(),
+            ))
+        })?;
+        if !matches!(tag.as_ref(), Some(t) if t.constant_time_eq(&presented)) {
+            cache.clear();
+            *tag = Some(presented);
+        }
+        cache.insert(seed_id.to_string(), SecureMemory::from_slice(seed)?);
         Ok(())
     }
 
